@@ -506,6 +506,9 @@ def run(ctx):
 
 
 def replay(ctx, payload):
+    if payload.get('mode') == 'memo':
+        from props import corr_models
+        return corr_models.replay_memo(ctx, payload['memo_origin'])
     pg = C.import_phasegen()
     cfg = conv.cfg_from_json(payload['cfg'])
     plan = plan_from_json(payload['plan'])
